@@ -238,6 +238,45 @@ func engineFiltersCLI(ctx *Ctx) {
 				}
 			}
 		}
+		// `wtf pipeline`: every printed result is a pipeline command
+		for qi := 0; qi < 3; qi++ {
+			q := vlib.GenQuery(r, words, 1+r.Intn(2), 0)
+			if strings.TrimSpace(q) == "" {
+				continue
+			}
+			args := []string{"pipeline", "--database", dbp, "--limit", "20", "--", q}
+			cs := map[string]interface{}{"db_entries": len(cmds), "args": args}
+			ctx.R.Begin(cs)
+			ctx.R.Eval(1)
+			res := h.Wtf(ctx.Wtf, nil, args...)
+			if bad, why := res.Crashed(); bad {
+				ctx.R.Violate(vlib.Violation{Property: "C04", Clause: "crash", Path: "cli-pipeline", Detail: why, Witness: map[string]interface{}{"case": cs, "stderr": vlib.Trunc(res.Stderr, 1500)}})
+				continue
+			}
+			// several entries may print the same command text: a printed line is a leak only if every entry that
+			// prints like it is definitely not a pipeline command
+			byShown := map[string]*vlib.Cmd{}
+			someIsPipeline := map[string]bool{}
+			for i := range cmds {
+				k := strings.ReplaceAll(cmds[i].Command, "|", " │ ")
+				byShown[k] = &cmds[i]
+				if !vlib.DefinitelyNotPipeline(&cmds[i]) {
+					someIsPipeline[k] = true
+				}
+			}
+			n, shown, _ := ListBlock(res.Stdout)
+			if n > 0 {
+				ctx.R.Path("cli-pipeline-nonempty", 1)
+				ctx.R.Nontriv("cli-pipeline", d, q)
+			}
+			for _, sc := range shown {
+				if c, ok := byShown[sc]; ok && !someIsPipeline[sc] {
+					ctx.R.Violate(vlib.Violation{Property: "C04", Clause: "pipeline-only", Path: "cli-pipeline",
+						Detail:  fmt.Sprintf("`wtf pipeline` printed %q, which is not a pipeline command", c.Command),
+						Witness: map[string]interface{}{"case": cs, "stdout": vlib.Trunc(res.Stdout, 1500)}})
+				}
+			}
+		}
 		os.RemoveAll(base)
 	}
 }
